@@ -181,6 +181,18 @@ def step (d : DSt) : List String → DSt × String
           | (_, .ok bs) => (d, showList "recs" bs)
           | (_, .error e) => (d, showErr e)
     | _, _, _ => (d, "bad-op")
+  | ["createreset", fmt, k0, n0, n, defw] =>
+    -- one Create'd object moved through parts 0..n-1 by ResetPartition: by C05_reset each part reads as a fresh split
+    match k0.toNat?, n0.toNat?, n.toNat?, defw.toNat? with
+    | some k0, some n0, some n, some defw =>
+      if ¬ (k0 < n0) then (d, "err:check") else
+      let r : Except Err (List Bytes) := (List.range n).foldlM (fun acc k => do
+        let bs ← shSub (fmt = "text") d.files n defw k
+        pure (acc ++ bs)) []
+      match r with
+      | .ok bs => (d, showList "recs" bs)
+      | .error e => (d, showErr e)
+    | _, _, _, _ => (d, "bad-op")
   | ["rec"] => withObj d fun s => runOp d s .nextRec "rec"
   | ["chunk"] => withObj d fun s => runOp d s .nextChunk "chunk"
   | ["bf"] => withObj d fun s => runOp d s .beforeFirst ""
